@@ -27,6 +27,8 @@ type FuncInfo struct {
 	CutAt    map[ast.Stmt][]*Cut
 	CutErr   []string
 	Rename   map[string]string // contract identifier -> current name of a renamed local (see locals.go)
+	Region     string   // region contract: name after '#'
+	RegionStmt ast.Stmt // the statement the region contract is about
 	RenameNote string
 }
 
@@ -34,6 +36,7 @@ type Prog struct {
 	fset           *token.FileSet
 	pkgs           map[string]*packages.Package
 	funcs          map[*types.Func]*FuncInfo
+	regions        []*FuncInfo // region contracts: one pseudo function per contracted statement
 	byKey          map[string]*FuncInfo // pkgpath + "." + Key
 	contracts      map[string]*Contract // pkgpath.Key -> contract (incl. trusted externals by full name)
 	lemmas         []*Contract
@@ -139,6 +142,21 @@ func loadProg(root string, patterns []string) (*Prog, error) {
 	// bind
 	var missing []string
 	for k, c := range p.contracts {
+		if i := strings.Index(k, "#"); i > 0 {
+			// region contract "Func#name": a statement of Func verified on its own, its free variables
+			// arbitrary values constrained by the (assumed) requires
+			base := p.byKey[k[:i]]
+			if base == nil || base.Decl.Body == nil {
+				missing = append(missing, fmt.Sprintf("%s (%s)", k, c.Src))
+				continue
+			}
+			rfi := &FuncInfo{Decl: base.Decl, Obj: base.Obj, Pkg: base.Pkg, File: base.File, LoopOrd: map[ast.Node]int{}, Contract: c, Region: k[i+1:]}
+			if err := p.bindRegion(rfi); err != nil {
+				rfi.CutErr = append(rfi.CutErr, err.Error())
+			}
+			p.regions = append(p.regions, rfi)
+			continue
+		}
 		fi := p.byKey[k]
 		if fi == nil {
 			// an interface method: a trusted contract on the interface
@@ -159,12 +177,75 @@ func loadProg(root string, patterns []string) (*Prog, error) {
 		return nil, fmt.Errorf("contracts for unknown functions: %s", strings.Join(missing, ", "))
 	}
 	p.applyRenames()
-	for _, fi := range p.funcs {
+	for _, fi := range p.allFuncs() {
 		if fi.Contract != nil && len(fi.Contract.Cuts)+len(fi.Contract.Assumes) > 0 {
 			p.bindCuts(fi)
 		}
 	}
 	return p, nil
+}
+
+// allFuncs: the functions plus the region pseudo functions.
+func (p *Prog) allFuncs() []*FuncInfo {
+	var out []*FuncInfo
+	for _, fi := range p.funcs {
+		out = append(out, fi)
+	}
+	out = append(out, p.regions...)
+	return out
+}
+
+// bindRegion finds the statement a region contract is about (anchor as for cuts) and numbers its loops from 0.
+func (p *Prog) bindRegion(fi *FuncInfo) error {
+	src, err := os.ReadFile(fi.File)
+	if err != nil {
+		return err
+	}
+	anchor, nth := fi.Contract.RegionAnchor, 0
+	if anchor == "" {
+		return fmt.Errorf("region contract %s has no region clause", fi.Contract.Key)
+	}
+	if m := anchorNthRe.FindStringSubmatch(anchor); m != nil {
+		anchor = m[1]
+		fmt.Sscanf(m[2], "%d", &nth)
+	}
+	want := normStmt([]byte(anchor))
+	var hits []ast.Stmt
+	ast.Inspect(fi.Decl.Body, func(n ast.Node) bool {
+		st, ok := n.(ast.Stmt)
+		if !ok {
+			return true
+		}
+		switch st.(type) {
+		case *ast.BlockStmt, *ast.CaseClause, *ast.LabeledStmt:
+			return true
+		}
+		a, b := p.fset.Position(st.Pos()).Offset, p.fset.Position(st.End()).Offset
+		if a >= 0 && b <= len(src) && strings.HasPrefix(normStmt(src[a:b]), want) {
+			hits = append(hits, st)
+		}
+		return true
+	})
+	switch {
+	case nth > 0 && nth <= len(hits):
+		fi.RegionStmt = hits[nth-1]
+	case nth == 0 && len(hits) == 1:
+		fi.RegionStmt = hits[0]
+	default:
+		return fmt.Errorf("region %s: anchor %q matches %d statements", fi.Contract.Key, fi.Contract.RegionAnchor, len(hits))
+	}
+	n := 0
+	ast.Inspect(fi.RegionStmt, func(nd ast.Node) bool {
+		switch nd.(type) {
+		case *ast.ForStmt, *ast.RangeStmt:
+			fi.LoopOrd[nd] = n
+			n++
+		case *ast.FuncLit:
+			return false
+		}
+		return true
+	})
+	return nil
 }
 
 // funcKey: "Recv.Name" or "Name".
@@ -196,6 +277,9 @@ func (p *Prog) ifaceMethodFullName(c *Contract) string {
 
 // qualified display name: pkgname.(Recv).Func
 func (p *Prog) displayName(fi *FuncInfo) string {
+	if fi.Region != "" {
+		return fi.Pkg.Types.Name() + "." + funcKey(fi.Obj) + "#" + fi.Region
+	}
 	return fi.Pkg.Types.Name() + "." + funcKey(fi.Obj)
 }
 
@@ -298,6 +382,15 @@ func (v *Verifier) intrinsic(fr *Frame, st *State, full string, fn *types.Func, 
 		}
 	}
 	switch full {
+	case "(error).Error":
+		// the text of an error: an arbitrary string
+		use()
+		var wf []*Term
+		val := v.eng.freshVal(v.eng.shapeOf(types.Typ[types.String]), "errtext", &wf)
+		for _, w := range wf {
+			st.assume(w)
+		}
+		return val, true
 	case "(*sync.Mutex).Lock", "(*sync.Mutex).Unlock", "(*sync.Cond).Signal", "(*sync.Cond).Broadcast":
 		// sequential semantics: locking and signalling have no effect on the state under contract
 		// (mutual exclusion and wake-ups are not modelled; listed as an assumption through intrinsicsUsed)
@@ -637,14 +730,32 @@ func (v *Verifier) intrinsic(fr *Frame, st *State, full string, fn *types.Func, 
 		return OpaqueVal{Sh: v.eng.shapeOf(res.At(0).Type()), ID: c.Fresh("err", IntSort), Nil: c.Fresh("close$ok", BoolSort)}, true
 	case "io.ReadFull":
 		use()
+		// like Read on the reader's fixed input stream (p[0:n] are the next n bytes, the position
+		// advances by n), but n == len(p) whenever the error is nil
 		p := args[1].(SliceVal)
-		v.havocRange(st, p, p.Off, v.iAdd(p.Off, p.Len))
 		n := c.Fresh("read$n", v.eng.IdxSort())
 		res := fn.Type().(*types.Signature).Results()
 		err := OpaqueVal{Sh: v.eng.shapeOf(res.At(1).Type()), ID: c.Fresh("err", IntSort), Nil: c.Fresh("read$ok", BoolSort)}
 		st.assume(v.iLe(v.idxConst(0), n))
 		st.assume(v.iLe(n, p.Len))
 		st.assume(c.Implies(err.Nil, c.Eq(n, p.Len)))
+		if rd, isRd := args[0].(OpaqueVal); isRd && v.eng.IntIdx() {
+			posH := v.ghostHeap(st, gRdPos)
+			pos0 := c.Select(posH, rd.ID)
+			old := v.eng.heapRows(st, p.Sh.Elem, p.Ref)[0]
+			nr := c.Fresh("readrow", old.Sort)
+			j := c.Bound("j", IntSort)
+			rel := c.ISub(j, p.Off)
+			inData := c.And(c.ILe(p.Off, j), c.ILt(rel, n))
+			inBuf := c.And(c.ILe(p.Off, j), c.ILt(rel, p.Len))
+			st.assume(c.Forall([]*Term{j}, c.And(
+				c.Implies(inData, c.Eq(c.Select(nr, j), c.App("ghost$inByte", BVSort(8), rd.ID, c.IAdd(pos0, rel)))),
+				c.Implies(c.Not(inBuf), c.Eq(c.Select(nr, j), c.Select(old, j))))))
+			v.eng.heapSetRows(st, p.Sh.Elem, p.Ref, []*Term{nr})
+			v.setGhostHeap(st, gRdPos, c.Store(posH, rd.ID, c.IAdd(pos0, n)))
+		} else {
+			v.havocRange(st, p, p.Off, v.iAdd(p.Off, p.Len))
+		}
 		return TupleVal{[]Val{v.intVal(n), err}}, true
 	case "math/bits.OnesCount64", "math/bits.Len64", "math/bits.TrailingZeros64", "math/bits.LeadingZeros64":
 		use()
